@@ -670,12 +670,30 @@ func c20ScanFilter(c *Ctx) {
 		}
 		return v == entries
 	}
+	var fromExt func(v ssa.Value, d int) bool
+	fromExt = func(v ssa.Value, d int) bool { // the entry's file name extension, possibly case-folded
+		call, ok := v.(*ssa.Call)
+		if !ok || d > 3 || call.Call.StaticCallee() == nil {
+			return false
+		}
+		switch call.Call.StaticCallee().String() {
+		case "path/filepath.Ext", "path.Ext":
+			return true
+		case "strings.ToLower", "strings.ToUpper":
+			return fromExt(call.Call.Args[0], d+1)
+		}
+		return false
+	}
 	var admitted func(v ssa.Value, d int) (bool, string)
 	admitted = func(v ssa.Value, d int) (bool, string) {
 		if d > 4 {
 			return false, "too deep"
 		}
 		switch x := v.(type) {
+		case *ssa.Lookup: // extension table: scriptExts[filepath.Ext(name)]
+			if fromExt(x.Index, 0) {
+				return true, "extension table"
+			}
 		case *ssa.UnOp:
 			if x.Op == token.NOT {
 				return admitted(x.X, d+1)
@@ -683,6 +701,9 @@ func c20ScanFilter(c *Ctx) {
 		case *ssa.Call:
 			if x.Call.IsInvoke() && x.Call.Method.Name() == "IsDir" && isEntry(x.Call.Value, 0) {
 				return true, "entry.IsDir()"
+			}
+			if cal := x.Call.StaticCallee(); cal != nil && cal.String() == "strings.EqualFold" && (fromExt(x.Call.Args[0], 0) || fromExt(x.Call.Args[1], 0)) {
+				return true, "extension test"
 			}
 			if cal := x.Call.StaticCallee(); cal != nil && (cal.String() == "strings.HasSuffix") {
 				if _, ok := x.Call.Args[1].(*ssa.Const); ok {
@@ -724,7 +745,7 @@ func c20ScanFilter(c *Ctx) {
 						if k.IsNil() {
 							return true, "nil test"
 						}
-						if call, ok := other.(*ssa.Call); ok && call.Call.StaticCallee() != nil && call.Call.StaticCallee().String() == "path/filepath.Ext" {
+						if fromExt(other, 0) {
 							return true, "extension test"
 						}
 						if _, ok := other.(*ssa.Phi); ok || isLoopIndex(other) {
@@ -739,6 +760,9 @@ func c20ScanFilter(c *Ctx) {
 		case *ssa.Extract:
 			if _, ok := x.Tuple.(*ssa.Next); ok && x.Index == 0 {
 				return true, "range ok"
+			}
+			if lk, ok := x.Tuple.(*ssa.Lookup); ok && fromExt(lk.Index, 0) {
+				return true, "extension table"
 			}
 		}
 		return false, v.String()
